@@ -143,6 +143,10 @@ def check_move(ctx):
         label = '[%s, %s, %s]' % ('align' if al else 'move', ref, kind)
         if set(sides) != {'unpack', 'pack'}:
             fi = list(sides.values())[0][1]
+            other = 'unpack' if 'pack' in sides else 'pack'
+            if any(o.rule == 'R8-move-siblings' and o.verdict == 'UNDECIDED' and o.function == 'Move.%s' % other for o in ctx.obs):
+                ctx.undecided('R8-move-siblings', fi, 'Move %s' % label, 'the case was found only on the %s side, but the cases of Move.%s could not all be told apart' % (list(sides)[0], other), fi.node.lineno, clause='b')
+                continue
             ctx.violation('R8-move-siblings', fi, 'Move %s' % label, 'the case exists only on the %s side' % list(sides)[0], fi.node.lineno, clause='b')
             continue
         ncases += 1
@@ -320,7 +324,7 @@ def check_sequence_pads(ctx):
     if up is None or pk is None or comp is None:
         raise Undecided('anchor Sequence.unpack / pack / _compile not found')
     ctx.unit('functions', 3)
-    w = repo.walker(max_paths=ctx.max_paths)
+    w = repo.walker(inline_depth=2, max_paths=ctx.max_paths)
     sites = 0
     A = 'self.aligned_to'
     for side, fi, cursor in (('unpack', up, 'offset'), ('pack', pk, 'fragments.current_offset')):
